@@ -101,6 +101,9 @@ class FluentWorklist(BaseWorklist):
         if len(set(lengths)) != 1:
             raise ValueError(f"Number of source/destination/volumes must be equal. They were {lengths}")
 
+        if not np.all(volumes >= 0):
+            raise ValueError(f"Volumes must be positive or zero. They were {volumes}")
+
         # automatic partitioning
         partition_by = optimize_partition_by(source, destination, partition_by, label)
 
